@@ -817,18 +817,52 @@ def _prng_real_randint(sc, res, dr):
             # which raw outputs are rejected is the implementation's choice (modulo zone, bucket zone,
             # bit-mask ...); exact uniformity is decided on the enumerated reduced domains, not here
             res.log("real_randint", x0, r, s.pos)
-        # a > b and too wide domains are documented to raise ValueError
-        for aa, bb in ((a + 1, a), (0, D)):
-            seam.script([0, 0])
+        # a > b is documented to raise ValueError
+        seam.script([0, 0])
+        try:
+            dr.randint(a + 1, a)
+            res.violate("C19/randint-out-of-range", f"randint({a + 1}, {a}) did not raise ValueError")
+            return
+        except ValueError:
+            pass
+        except Exception as e:
+            res.violate("C19/randint-out-of-range", f"randint({a + 1}, {a}) raised {type(e).__name__}")
+            return
+        # domains wider than 2^32: the pinned code documents ValueError.  The property only says
+        # "uniform over exactly [a, b]", so an implementation that serves them is accepted as long as
+        # it is uniform: N draws from uniformly random 32-bit words, counted in m equal buckets
+        # of [a, b] (m = the odd factor of the width), every bucket within 8 standard deviations.
+        for m, shift in ((1, 32), (3, 62), (3, 94), (5, 61), (3, 31)):
+            ww = (m << shift) + (1 if m == 1 else 0)
+            aa = a - (ww // 2 if (sc["s"] + shift) % 2 else 0)
+            bb = aa + ww - 1
+            N = 3000
+            seam.script([rng.randrange(D) for _ in range(N * 12)])
+            m = 3 if m == 1 else m
+            counts = [0] * m
+            n = 0
             try:
-                dr.randint(aa, bb)
-                res.violate("C19/randint-out-of-range", f"randint({aa}, {bb}) did not raise ValueError")
-                return
-            except ValueError:
+                for _ in range(N):
+                    r = dr.randint(aa, bb)
+                    if type(r) is not int or not aa <= r <= bb:
+                        res.violate("C19/randint-out-of-range", f"randint({aa}, {bb}) on the real domain gave {r!r}")
+                        return
+                    counts[min(m - 1, (r - aa) * m // ww)] += 1
+                    n += 1
+            except ScriptExhausted:
                 pass
+            except ValueError:
+                res.hit("probe:wide_domain_rejected_with_valueerror")
+                continue
             except Exception as e:
                 res.violate("C19/randint-out-of-range", f"randint({aa}, {bb}) raised {type(e).__name__}")
                 return
+            res.hit("probe:wide_domain_served")
+            if n >= 1000:
+                sd = (n * (1 / m) * (1 - 1 / m)) ** 0.5
+                if any(abs(c - n / m) > 8 * sd for c in counts):
+                    res.violate("C19/randint-not-uniform", f"randint(a, a + {m if ww % m == 0 else 1}*2^{shift} - 1) over {n} draws from uniform raw words: bucket counts {counts} (expected {n / m:.0f} +- {sd:.0f} each)")
+                    return
 
 
 def _prng_real_shuffle(sc, res, dr, srandom):
